@@ -35,6 +35,23 @@ GEO = "mdtraj/geometry/src/geometry.cpp"
 DSSP = "mdtraj/geometry/src/dssp.cpp"
 
 
+def effective_freq(m, caller):
+    """(call node, constant value or None) of the `freq` that `caller` effectively hands to _compute_bounded_geometry: keyword, positional or the callee's default."""
+    cg = m.functions["_compute_bounded_geometry"]
+    fn = m.functions[caller]
+    calls = [n for n in walk_no_nested(fn) if isinstance(n, ast.Call) and call_name(n) == "_compute_bounded_geometry"]
+    if not calls:
+        return None, None
+    c = calls[0]
+    names = [a.arg for a in cg.args.args]
+    e = kwarg(c, "freq")
+    if e is None and "freq" in names and len(c.args) > names.index("freq"):
+        e = c.args[names.index("freq")]
+    if e is None:
+        e = param_default(cg, "freq")
+    return c, (const(e) if e is not None else None)
+
+
 def check(ctx):
     ctx.rule("C14-R1", "every comparison has equal units on both sides and the documented operator; the distance pre-filter uses the final cutoff and operator; "
                        "the index tables select r(H...A) / angle at H (Baker-Hubbard) and r(D...A) / angle at D (Wernet-Nilsson)")
@@ -114,6 +131,9 @@ def _r1(ctx):
                    "distance indices %s / angle indices %s give the distance between atoms %s and the angle at atom %s of the (D, H, A) triplet; documented: %s"
                    % (di, ai, di, _vertex(list(ai)) if ai else None, what))
         ctx.decide(dotted(call[0].args[2]) == "distance_cutoff", "C14-R1", call[0], HB, q, "pre-filter uses the final distance cutoff", "", "the pre-filter cutoff is `%s`" % src(call[0].args[2]))
+    c_, eff = effective_freq(ctx.py.mod(HB), "wernet_nilsson")
+    ctx.decide(eff == 0.0, "C14-R1", c_ or wn, HB, "wernet_nilsson", "no frequency criterion: pre-filter threshold 0", "",
+               "wernet_nilsson's pre-filter runs with freq=%r: the documented criterion is purely geometric, per frame" % (eff,))
     # _compute_bounded_geometry: pre-filter is a weakening, cosine clipped
     s = src(cg)
     ctx.decide("np.mean(distances < distance_cutoff, axis=0)" in s and "mask = prevalence > freq" in s, "C14-R1", cg, HB, "_compute_bounded_geometry",
